@@ -8,9 +8,9 @@ RS=/root/repo-seed; VS=/root/vseed
 [ -d $RS ] || git -C /repo worktree add --detach $RS HEAD >/dev/null 2>&1
 [ -d $VS ] || git -C /verif worktree add --detach $VS HEAD >/dev/null 2>&1
 ( cd $RS && git checkout -q -- . && git checkout -q --detach "$(git -C /repo rev-parse HEAD)" ) || exit 2
-( cd $VS && git checkout -q -- . && git checkout -q --detach "$(git -C /verif rev-parse HEAD)" && grep -rl '"/repo/' engines/*/Cargo.toml | xargs -r sed -i 's#"/repo/#"/root/repo-seed/#g' ) || exit 2
+( cd $VS; export CARGO_BUILD_JOBS=8 && git checkout -q -- . && git checkout -q --detach "$(git -C /verif rev-parse HEAD)" && grep -rl '"/repo/' engines/*/Cargo.toml | xargs -r sed -i 's#"/repo/#"/root/repo-seed/#g' ) || exit 2
 if [ "$P" != "-" ]; then ( cd $RS && git apply "$P" ) || { echo "APPLY FAILED"; exit 2; }; echo "applied: $(git -C $RS diff --stat | tail -1)"; fi
-cd $VS
+cd $VS; export CARGO_BUILD_JOBS=8
 for c in "$@"; do
   out=$(./check $c $TIER 2>&1); rc=$?
   echo "== $c $TIER exit=$rc"
